@@ -78,6 +78,10 @@ def run(ctx):
             n = rng.randint(0, 8 * L - p)
             if rng.random() < 0.5:
                 n = min(n, rng.choice([0, 1, 7, 8, 9, 15, 16, 17, 31, 32, 33, 63, 64, 65]))
+        if i % 10 == 0 and L >= 6:
+            # the positions and widths of the CCSDS header fields are reads like any other: the bits of the buffer, whatever a header
+            # accessor would say about this buffer (its length field rarely matches its length)
+            p, n = [(0, 3), (3, 1), (4, 1), (5, 11), (16, 2), (18, 14), (32, 16), (0, 16), (16, 16), (0, 48)][(i // 10) % 10]
         op = rng.choice(["int", "bytes"])
         try:
             v, pos, after = do_read(packets, buf, p, n, op)
